@@ -240,6 +240,48 @@ def sparse_group_task(T, g, shard=None):
 
 
 add_task('C07', 'block_separable:WeightedL1GroupL2.prox_1group[g=1]', sparse_group_task, strength='B', g=1)
+
+
+def sparse_group_formula_task(T, g):
+    """WeightedL1GroupL2.prox_1group(x, s, g) against its documented composition (function against spec function):
+        soft-threshold every coordinate k of the group at  s * alpha * weights_features[FEATURE of coordinate k],
+        then block soft-threshold the result at  s * alpha * weights_groups[g]
+    on the asymmetric layout (group 0 = features (1, 0): a positional slice of the feature weights is NOT the same).  That this
+    composition is the global minimiser is the (extended-tier, not completed) task above; sound for g = 1 (quick tier)."""
+    import z3
+    from pv import sym, symrun
+    from pv.sproof import check_contract, zpre
+    from .catalog import objarr
+    symrun.install()
+    K = symrun.get('skglm.penalties.block_separable', 'WeightedL1GroupL2')
+    R, L = sym.SymReal, sym.lift
+    feats = GROUPS[g]
+    d = len(feats)
+    a, s = z3.Real('alpha'), z3.Real('s')
+    wg = [z3.Real('wg0'), z3.Real('wg1')]
+    wf = [z3.Real(f'wf{i}') for i in range(3)]
+    x = [z3.Real(f'x{i}') for i in range(d)]
+    pre = zpre([a >= 0, s > 0] + [t >= 0 for t in wg + wf])
+    st = []
+    for k in range(d):
+        thr = s * a * wf[feats[k]]
+        st.append(z3.If(x[k] > thr, x[k] - thr, z3.If(x[k] < -thr, x[k] + thr, 0)))
+    nst = z3.Real('norm_of_soft_thresholded')
+    u = s * a * wg[g]
+    hy = [nst >= 0, nst * nst == z3.Sum([t * t for t in st])]
+
+    def post(out, p):
+        r = [L(t) for t in np.asarray(out, dtype=object).ravel()]
+        return [(f'[{k}]==BST(ST(x,s.alpha.wf[features-of-the-group]),s.alpha.wg[g])', hy,
+                 r[k] == z3.If(nst <= u, 0, (1 - u / nst) * st[k])) for k in range(d)]
+    check_contract(T, f'prox_1group[g={g}]==documented-composition',
+                   lambda: K(R(a), objarr([R(t) for t in wg]), objarr([R(t) for t in wf]), GP, GI).prox_1group(
+                       np.array([R(t) for t in x], dtype=object), R(s), g), pre, post, strength='B',
+                   replay=dict(fn='contracts.groups:replay_sparse_group', args=dict(g=g)))
+
+
+for _g in (0, 1):
+    add_task(['C07', 'C08'], f'block_separable:WeightedL1GroupL2.prox_1group[g={_g}]==ST-then-BST', sparse_group_formula_task, strength='B', g=_g)
 for _k in range(8):
     # group of two features: 4 of its 113 path obligations stay undecided after 7 minutes each (z3 + cvc5): NOT claimed; kept runnable
     # with `--tier extended`, in no MANIFEST tier
